@@ -464,3 +464,14 @@ func VerifSettle(parked func() int) bool {
 		}
 	}
 }
+
+// KillWriter makes the client look like one whose connection has just failed: its writer goroutine is gone
+// (writerDone closed, nobody reads writeCh) while it is still a member of its group.
+func (v *VerifClient) KillWriter() {
+	select {
+	case <-v.c.writerDone:
+	default:
+		close(v.c.writerDone)
+	}
+	v.c.writeCh = make(chan interface{})
+}
